@@ -38,6 +38,8 @@ enum Op {
     Cell(Kind, u64, SysOp),
     SetOwner(usize), // new owner rule: require(badge i)
     LockOwner,
+    ReservedRolePath(usize), // RoleAssignment.set(Main, "_owner_", require(badge i))
+    OpenSetter,              // RoleAssignment.set(Metadata, "metadata_setter", allow_all)
 }
 #[derive(Clone, PartialEq, Eq, Debug)]
 struct Obs {
@@ -199,6 +201,8 @@ impl World {
             Op::Cell(Kind::Royalty, _, SysOp::Remove) => unreachable!("royalty entries cannot be removed"),
             Op::SetOwner(i) => b.set_owner_role(res, rule!(require(self.badges[*i]))),
             Op::LockOwner => b.lock_owner_role(res),
+            Op::ReservedRolePath(i) => b.set_role(res, ModuleId::Main, "_owner_", rule!(require(self.badges[*i]))),
+            Op::OpenSetter => b.set_role(res, ModuleId::Metadata, "metadata_setter", AccessRule::AllowAll),
         };
         let receipt = self.ledger.execute_manifest(b.build(), [NonFungibleGlobalId::from_public_key(self.pk)]);
         match &receipt.result {
@@ -247,6 +251,8 @@ fn op_coq(o: &Op) -> String {
         Op::Cell(Kind::Royalty, k, s) => format!("(OCell (KRoyalty, {}) {})", k, so(s)),
         Op::SetOwner(i) => format!("(OSetOwner {})", i),
         Op::LockOwner => "OLockOwner".into(),
+        Op::ReservedRolePath(i) => format!("(OReservedRolePath {})", i),
+        Op::OpenSetter => "OAuthConfig".into(),
     }
 }
 
@@ -262,18 +268,26 @@ struct Case {
     steps: Vec<Step>,
 }
 
-fn run_case(w: &mut World, rng: &mut Rng, len: usize) -> Case {
-    let kind = rng.below(3) / 2; // 2/3 resources, 1/3 accounts
-    let fixed_owner = rng.chance(1, 5);
-    let res = w.new_object(kind, fixed_owner, rng.chance(1, 3));
+type Script = (u64, bool, bool, Vec<(Vec<usize>, Op)>); // object kind, fixed owner, metadata locked at creation, calls
+
+fn run_case(w: &mut World, rng: &mut Rng, len: usize, script: Option<Script>) -> Case {
+    let (kind, fixed_owner, locked_at_creation) = match &script {
+        Some((k, f, l, _)) => (*k, *f, *l),
+        None => (rng.below(3) / 2, rng.chance(1, 5), rng.chance(1, 3)), // 2/3 resources, 1/3 accounts
+    };
+    let res = w.new_object(kind, fixed_owner, locked_at_creation);
     let comp = w.new_component();
     let init = w.observe(res, comp);
     let mut obs = init.clone();
     let mut steps = Vec::new();
     let hot = rng.below(NKEYS);
-    for _ in 0..len {
+    let mut setter_open = false;
+    let n = script.as_ref().map(|s| s.3.len()).unwrap_or(len);
+    for step_no in 0..n {
         let r = rng.below(100);
-        let op = if r < 55 || comp.is_none() && r < 80 {
+        let op = if let Some(sc) = &script {
+            sc.3[step_no].1.clone()
+        } else if r < 52 || comp.is_none() && r < 78 {
             let k = if rng.chance(1, 2) { hot } else { rng.below(NKEYS) };
             let s = match rng.below(10) {
                 0..=4 => SysOp::Write(rng.below(1000)),
@@ -281,31 +295,144 @@ fn run_case(w: &mut World, rng: &mut Rng, len: usize) -> Case {
                 _ => SysOp::Lock,
             };
             Op::Cell(Kind::Metadata, k, s)
-        } else if r < 80 {
+        } else if r < 78 {
             let s = if rng.chance(1, 3) { SysOp::Lock } else { SysOp::Write(rng.below(5)) };
             Op::Cell(Kind::Royalty, rng.below(METHODS.len() as u64), s)
-        } else if r < 93 {
+        } else if r < 90 {
             Op::SetOwner(rng.usize_below(3))
-        } else {
+        } else if r < 95 {
             Op::LockOwner
+        } else if r < 98 {
+            Op::ReservedRolePath(rng.usize_below(3))
+        } else {
+            Op::OpenSetter
         };
         // callers: mostly the holder of the current owner badge, sometimes nobody, sometimes everything
-        let proofs: Vec<usize> = match rng.below(10) {
-            0 | 1 => vec![],
-            2 => vec![rng.usize_below(3)],
-            3 => vec![0, 1, 2],
-            _ => vec![obs.owner_rule],
+        let proofs: Vec<usize> = if let Some(sc) = &script {
+            sc.3[step_no].0.clone()
+        } else {
+            match rng.below(10) {
+                0 | 1 => vec![],
+                2 => vec![rng.usize_below(3)],
+                3 => vec![0, 1, 2],
+                _ => vec![obs.owner_rule],
+            }
         };
         let sat_owner = proofs.contains(&obs.owner_rule);
         let auth = match &op {
             Op::Cell(Kind::Royalty, ..) => true, // royalty_setter / royalty_locker are allow_all
+            Op::Cell(Kind::Metadata, _, SysOp::Write(_)) | Op::Cell(Kind::Metadata, _, SysOp::Remove) => sat_owner || setter_open,
             _ => sat_owner,
         };
         let out = w.exec(res, comp, &proofs, &op);
+        if op == Op::OpenSetter && out == "Ok" {
+            setter_open = true;
+        }
         obs = w.observe(res, comp);
         steps.push(Step { proofs, auth, op, out, obs: obs.clone() });
     }
     Case { init, steps }
+}
+
+/// Deterministic boundary family (identical for every seed)
+fn boundary_scripts() -> Vec<(&'static str, Script)> {
+    use SysOp::*;
+    let m = |k: u64, s: SysOp| Op::Cell(Kind::Metadata, k, s);
+    let ry = |k: u64, s: SysOp| Op::Cell(Kind::Royalty, k, s);
+    let meta: Vec<(Vec<usize>, Op)> = vec![
+        // write, remove, write again of a pre-existing key; lock by nobody / a stranger / the owner
+        (vec![0], m(0, Write(5))),
+        (vec![0], m(0, Remove)),
+        (vec![0], m(0, Write(6))),
+        (vec![], m(0, Lock)),
+        (vec![1], m(0, Lock)),
+        (vec![0], m(0, Lock)),
+        (vec![0], m(0, Write(7))),
+        (vec![0], m(0, Remove)),
+        (vec![0], m(0, Lock)),
+        (vec![0, 1, 2], m(0, Write(7))),
+        (vec![], m(0, Write(7))),
+        // locking an entry that was never set, and one that was set and removed
+        (vec![0], m(1, Lock)),
+        (vec![0], m(1, Write(1))),
+        (vec![0], m(1, Remove)),
+        (vec![0], m(2, Write(1))),
+        (vec![0], m(2, Remove)),
+        (vec![0], m(2, Lock)),
+        (vec![0], m(2, Write(2))),
+        // another path: the owner opens the metadata_setter role to everybody; locks still hold
+        (vec![], Op::OpenSetter),
+        (vec![0], Op::OpenSetter),
+        (vec![], m(0, Write(9))),
+        (vec![], m(0, Remove)),
+        (vec![], m(3, Write(9))),
+        (vec![], m(3, Remove)),
+        (vec![], m(3, Write(8))),
+        (vec![], m(3, Lock)),
+        (vec![0], m(3, Lock)),
+        (vec![], m(3, Write(1))),
+        (vec![], m(3, Remove)),
+    ];
+    let owner_updatable: Vec<(Vec<usize>, Op)> = vec![
+        (vec![], Op::SetOwner(1)),
+        (vec![1], Op::SetOwner(1)),
+        (vec![0], Op::SetOwner(1)),
+        (vec![0], Op::SetOwner(2)),
+        (vec![1], Op::SetOwner(1)),
+        (vec![1], Op::ReservedRolePath(2)),
+        (vec![0, 1, 2], Op::ReservedRolePath(2)),
+        (vec![0], Op::LockOwner),
+        (vec![], Op::LockOwner),
+        (vec![1], Op::LockOwner),
+        (vec![1], Op::SetOwner(0)),
+        (vec![0, 1, 2], Op::SetOwner(0)),
+        (vec![1], Op::LockOwner),
+        (vec![0, 1, 2], Op::LockOwner),
+        (vec![0, 1, 2], Op::ReservedRolePath(0)),
+        (vec![1], m(0, Write(1))),
+        (vec![0], m(0, Write(2))),
+    ];
+    let owner_fixed: Vec<(Vec<usize>, Op)> = vec![
+        (vec![0], Op::SetOwner(1)),
+        (vec![0], Op::LockOwner),
+        (vec![0, 1, 2], Op::SetOwner(1)),
+        (vec![0], Op::ReservedRolePath(1)),
+        (vec![0], m(0, Write(1))),
+        (vec![0], m(0, Lock)),
+        (vec![0], m(0, Write(2))),
+    ];
+    let created_locked: Vec<(Vec<usize>, Op)> = vec![
+        (vec![0], m(3, Write(1))),
+        (vec![0], m(3, Remove)),
+        (vec![0], m(3, Lock)),
+        (vec![0, 1, 2], m(3, Write(1))),
+        (vec![0], m(1, Write(4))),
+        (vec![0], m(1, Lock)),
+        (vec![0], m(1, Write(5))),
+    ];
+    let royalty: Vec<(Vec<usize>, Op)> = vec![
+        (vec![], ry(0, Write(0))),
+        (vec![], ry(1, Write(1))),
+        (vec![], ry(1, Write(0))),
+        (vec![], ry(1, Write(3))),
+        (vec![], ry(1, Lock)),
+        (vec![], ry(1, Write(2))),
+        (vec![], ry(1, Lock)),
+        (vec![0, 1, 2], ry(1, Write(2))),
+        (vec![0], ry(0, Lock)),
+        (vec![], ry(0, Write(1))),
+        (vec![], ry(0, Lock)),
+    ];
+    vec![
+        ("metadata_resource", (0, false, false, meta.clone())),
+        ("metadata_account", (1, false, false, meta)),
+        ("owner_updatable_resource", (0, false, false, owner_updatable.clone())),
+        ("owner_updatable_account", (1, false, false, owner_updatable)),
+        ("owner_fixed_resource", (0, true, false, owner_fixed.clone())),
+        ("owner_fixed_account", (1, true, false, owner_fixed)),
+        ("metadata_created_locked", (0, false, true, created_locked)),
+        ("royalty", (0, false, false, royalty)),
+    ]
 }
 
 fn oracle(c: &Case) -> Vec<String> {
@@ -349,6 +476,12 @@ fn oracle(c: &Case) -> Vec<String> {
                     locked_roy.insert(*k);
                 }
             }
+            Op::ReservedRolePath(_) => {
+                if ok {
+                    fails.push(format!("step {}: role-assignment set on the reserved owner role key committed (proofs {:?})", i, s.proofs));
+                }
+            }
+            Op::OpenSetter => {}
             Op::SetOwner(_) | Op::LockOwner => {
                 if ok && owner_locked {
                     fails.push(format!("step {}: {:?} on a locked owner role committed (proofs {:?})", i, s.op, s.proofs));
@@ -380,10 +513,16 @@ fn main() {
     if w.royalty_package.is_none() {
         report.count("royalty_package_missing");
     }
-    for i in 0..args.cases {
+    let bf = boundary_scripts();
+    for i in 0..args.cases.max(bf.len() + 4) {
         let mut rng = root.fork(i as u64);
         let len = rng.range(10, 40) as usize;
-        let case = run_case(&mut w, &mut rng, len);
+        let case = if i < bf.len() {
+            report.count(&format!("bf.{}", bf[i].0));
+            run_case(&mut w, &mut rng, 0, Some(bf[i].1.clone()))
+        } else {
+            run_case(&mut w, &mut rng, len, None)
+        };
         let mut refused_locked = false;
         for s in &case.steps {
             let name = match &s.op {
@@ -391,6 +530,8 @@ fn main() {
                 Op::Cell(Kind::Royalty, _, so) => format!("royalty.{:?}", so).split('(').next().unwrap().to_string(),
                 Op::SetOwner(_) => "owner.Set".to_string(),
                 Op::LockOwner => "owner.Lock".to_string(),
+                Op::ReservedRolePath(_) => "owner.ReservedPath".to_string(),
+                Op::OpenSetter => "auth.OpenSetter".to_string(),
             };
             report.count(&format!("{}.{}", name, s.out.trim_matches(|c| c == '(' || c == ')').replace("Fail ", "")));
             if s.out == "(Fail ELocked)" {
@@ -418,6 +559,21 @@ fn main() {
                 obs_coq(&s.obs)
             )))
         ));
+    }
+    for (name, _) in &bf {
+        report.floor(&format!("bf.{}", name), 1);
+    }
+    for key in [
+        "metadata.Write.Ok", "metadata.Write.ELocked", "metadata.Write.EUnauthorized", "metadata.Remove.Ok", "metadata.Remove.ELocked",
+        "metadata.Lock.ELocked", "metadata.Lock.EUnauthorized", "owner.Set.Ok", "owner.Set.EUnauthorized", "owner.Lock.EUnauthorized",
+        "owner.ReservedPath.EUnauthorized", "auth.OpenSetter.Ok", "auth.OpenSetter.EUnauthorized",
+    ] {
+        report.floor(key, 2);
+    }
+    if w.royalty_package.is_some() {
+        for key in ["royalty.Write.Ok", "royalty.Write.ELocked", "royalty.Lock.Ok", "royalty.Lock.ELocked"] {
+            report.floor(key, 2);
+        }
     }
     report.floor("refused_on_locked", args.cases as u64);
     report.floor("metadata.Lock.Ok", (args.cases as u64) / 2);
